@@ -1,6 +1,7 @@
 package props
 
 import (
+	"math"
 	"fmt"
 
 	"verif/harness/fw"
@@ -139,6 +140,8 @@ func c15Program(k int, xs, ys jast.Node) (jast.Node, string) {
 func c15NProg() int { return len(c15Callbacks) + 2*len(c15Preds) + 2*len(c15Folds) + 13 }
 
 var c15Pool = []interface{}{1.0, 2.0, 2.0, 3.0, -1.0, 0.5, "1", "a", "a", "", true, false, A{1.0}, A{1.0}, A{A{1.0}}, A{}, O{"a": 1.0}, O{"a": 1.0}, O{"a": "1"}, O{}, 1e21,
+	// zero with and without sign inside containers (equal by value)
+	A{0.0}, A{math.Copysign(0, -1)}, O{"a": 0.0}, O{"a": math.Copysign(0, -1)},
 	// strings that spell the JSON text of other members
 	"[1]", "{\"a\":1}", "[]", "{}", "[[1]]", "true", "2", "\"a\""}
 
